@@ -474,6 +474,9 @@ def run(ctx):
         y = float(r.uniform(1900, 2200))
         ex_decinv(ctx, y, "datetime" if j % 2 else "epoch")
         ctx.count(1)
+    if thorough and ctx.shard == 0:
+        from ..suite import run_repo_suite
+        run_repo_suite(ctx, ["test_time_utilities.py", "test_catalog.py", "test_create_catalog.py", "test_forecast.py", "test_JmaCsvCatalog.py", "test_ingv_readers.py"])
     # library call sites
     for j in range(20):
         ex_callers(ctx, ms[j * 30:(j + 1) * 30])
